@@ -909,15 +909,17 @@ def c19_unrooted_idents(toks, extra_ok=()):
         if i > 0 and is_p(toks[i - 1], '.'):
             continue
         # walk back over `:: seg :: seg` to the path root
+        def is_name(t):
+            return t[0] == 'I' and not (isinstance(t[1], str) and t[1] in KEYWORDS_OK | {'as'})
         j = i
         rooted = False
-        while j >= 2 and is_p(toks[j - 1], '::') and toks[j - 2][0] == 'I':
+        while j >= 2 and is_p(toks[j - 1], '::') and is_name(toks[j - 2]):
             j -= 2
         if j >= 1 and is_p(toks[j - 1], '::'):
             root = toks[j][1]
-            if (j - 1 == 0 or not (toks[j - 2][0] == 'I' or is_p(toks[j - 2], '>'))) and root in ROOTS_OK:
+            if (j - 1 == 0 or not (is_name(toks[j - 2]) or is_p(toks[j - 2], '>'))) and root in ROOTS_OK:
                 rooted = True
-            elif j - 2 >= 0 and (toks[j - 2][0] == 'I' or is_p(toks[j - 2], '>')):
+            elif j - 2 >= 0 and (is_name(toks[j - 2]) or is_p(toks[j - 2], '>')):
                 rooted = True   # associated item after a type (EntraitT::Target, <..>::method)
         elif j < i:
             # path starting with an identifier: fine when that identifier is itself acceptable (e.g. EntraitT::Target)
@@ -1265,7 +1267,9 @@ def impl_method_expectations(I, f, d, O, mi, mode, tag, has_async_trait):
     recv = [p for p in mi.params if p.receiver is not None]
     names = [p.name() for p in params]
     if any(n is None for n in names):
-        O.add('C16', f'{tag}:every-parameter-is-a-plain-identifier', False, f'{[show(p.pat) for p in params]}')
+        bad_modes = sorted({str(t[1]) for p in params if p.name() is None for t in p.pat if t[0] in ('I', 'P') and isinstance(t[1], str) and t[1] in ('mut', 'ref', '@')})
+        O.add('C16', f'{tag}:every-parameter-is-a-plain-identifier', False, f'{[show(p.pat) for p in params]}',
+              cls=('binding-mode-kept:' + '+'.join(bad_modes)) if bad_modes else '')
         return
     n_user = len(inputs) - (0 if d.kind == 'nodeps' else 1)
     impl_ty = [('P', '&')] + list(IMPL_PATH)
@@ -1303,3 +1307,395 @@ def impl_method_expectations(I, f, d, O, mi, mode, tag, has_async_trait):
     out_node = I.f(sig, 'output')
     ret_in = I.toks(out_node.fields[1]) if out_node.variant == 'Type' else None
     O.add('C03', f'{tag}:return-type-unchanged', (mi.ret is None and ret_in is None) or (mi.ret is not None and ret_in is not None and toks_eq(mi.ret, ret_in)))
+
+
+# ---------------------------------------------------------------------------
+# trait mode (C06 C07 C09 + the trait halves of C10 C12 C13 C15 C18 C19)
+# ---------------------------------------------------------------------------
+
+ERR_NO_IMPL_TRAIT = 'Cannot use a custom delegating trait without a custom trait to delegate to'
+
+
+def touch_sig(I, sig):
+    ex = I.ex
+    for n in ('constness', 'asyncness', 'unsafety', 'abi', 'ident', 'output'):
+        I.f(sig, n)
+    gen = I.f(sig, 'generics')
+    for gp in I.items(gen, 'params'):
+        inner = ex.force_slot(gp.fields, 0)
+        if gp.variant == 'Type':
+            I.f(inner, 'ident')
+            I.items(inner, 'bounds')
+    wc = I.f(gen, 'where_clause')
+    if wc.variant == 'Some':
+        for pred in I.items(ex.force_slot(wc.fields, 0), 'predicates'):
+            ex.force_slot(pred.fields, 0)
+    for fa in I.items(sig, 'inputs'):
+        inner = ex.force_slot(fa.fields, 0)
+        if fa.variant == 'Typed':
+            I.items(inner, 'attrs')
+            pat = I.unbox(I.f(inner, 'pat'))
+            ex.force_slot(pat.fields, 0)
+            I.f(inner, 'ty')
+        else:
+            I.f(inner, 'reference')
+
+
+def generic_args_of(I, generics):
+    args = []
+    for gp in I.items(generics, 'params'):
+        inner = I.ex.force_slot(gp.fields, 0)
+        if gp.variant == 'Lifetime':
+            args.append(I.toks(I.f(inner, 'lifetime')))
+        else:
+            args.append([('I', I.f(inner, 'ident').name)])
+    return args
+
+
+def angle(args):
+    if not args:
+        return []
+    out = [('P', '<')]
+    for k, a in enumerate(args):
+        if k:
+            out.append(('P', ','))
+        out += a
+    out.append(('P', '>'))
+    return out
+
+
+def spec_trait_mode(ex, variant, attr0, item0, out_value):
+    O = Obligations()
+    I = In(ex)
+    eff = effective_options(I, attr0, variant, 'trait')
+    impl_trait = I.f(attr0, 'impl_trait')
+    dk = I.f(attr0, 'delegation_kind')
+    kind = 'none'
+    delegate_ident = None
+    if dk.variant == 'Some':
+        d = dk.fields[0].fields[0]
+        if d.variant == 'BySelf':
+            kind = 'self'
+        elif d.variant == 'ByRef':
+            kind = 'ref' if d.fields[0].variant == 'AsRef' else 'borrow'
+        else:
+            kind = 'trait'
+            delegate_ident = d.fields[0].name
+    has_it = impl_trait.variant == 'Some'
+    # rejections decided by the attribute alone: nothing of the item needs to be looked at
+    if out_value.variant == 'Err' and ((not has_it and kind == 'trait')):
+        msg = out_value.fields[0].fields[1]
+        O.add('C15', 'error-only-for-documented-misuse', isinstance(msg, str) and msg.startswith(ERR_NO_IMPL_TRAIT), f'macro reported `{msg}`')
+        sp = out_value.fields[0].fields[0]
+        O.add('C15', 'error-span-at-input-token', isinstance(sp, Span) and sp.origin != 'call_site', f'span {sp}')
+        return O
+    items_in = I.items(item0, 'items')
+    if out_value.variant == 'Err':
+        msg = out_value.fields[0].fields[1]
+        if any(it.variant not in ('Fn', 'Type') for it in items_in):
+            exp = 'Entrait does not support this kind of trait item.'
+        elif has_it and kind in ('none', 'self'):
+            exp = 'Missing delegate_by'
+        else:
+            exp = None
+        O.add('C15', 'error-only-for-documented-misuse', exp is not None and isinstance(msg, str) and msg.startswith(exp),
+              f'macro reported `{msg}`; expected {"`" + exp + "`" if exp else "a successful expansion"}')
+        if exp != 'Missing delegate_by':
+            sp = out_value.fields[0].fields[0]
+            O.add('C15', 'error-span-at-input-token', isinstance(sp, Span) and sp.origin != 'call_site', f'span {sp}')
+        return O
+    methods = []
+    other_items = []
+    for it in items_in:
+        inner = ex.force_slot(it.fields, 0)
+        if it.variant == 'Fn':
+            methods.append(inner)
+            touch_sig(I, I.f(inner, 'sig'))
+            for a in I.items(inner, 'attrs'):
+                attr_kind(I, a)
+            I.f(inner, 'default')
+        else:
+            other_items.append(it)
+    trait_attrs = I.items(item0, 'attrs')
+    for a in trait_attrs:
+        attr_kind(I, a)
+    for n in ('vis', 'unsafety', 'ident', 'colon_token'):
+        I.f(item0, n)
+    I.items(item0, 'supertraits')
+    gen = I.f(item0, 'generics')
+    for gp in I.items(gen, 'params'):
+        inner = ex.force_slot(gp.fields, 0)
+        if gp.variant == 'Type':
+            I.f(inner, 'ident')
+    wc = I.f(gen, 'where_clause')
+    if wc.variant == 'Some':
+        I.items(ex.force_slot(wc.fields, 0), 'predicates')
+    if has_it:
+        I.f(impl_trait.fields[0], 'ty') if False else None
+        ex.force_slot(impl_trait.fields[0].fields, 0)
+    # ---- documented rejections -------------------------------------------------------------------------------------------
+    expect_err = None
+    if not has_it and kind == 'trait':
+        expect_err = ERR_NO_IMPL_TRAIT
+    elif any(it.variant not in ('Fn', 'Type') for it in items_in):
+        expect_err = 'Entrait does not support this kind of trait item.'
+    elif has_it and kind in ('none', 'self'):
+        expect_err = 'Missing delegate_by'
+    if out_value.variant == 'Err':
+        msg = out_value.fields[0].fields[1]
+        O.add('C15', 'error-only-for-documented-misuse', expect_err is not None and isinstance(msg, str) and msg.startswith(expect_err),
+              f'macro reported `{msg}`; expected {"`" + expect_err + "`" if expect_err else "a successful expansion"}')
+        sp = out_value.fields[0].fields[0]
+        if expect_err != 'Missing delegate_by':
+            O.add('C15', 'error-span-at-input-token', isinstance(sp, Span) and sp.origin != 'call_site', f'span {sp}')
+        return O
+    O.add('C15', 'misuse-rejected', expect_err is None, f'expected rejection `{expect_err}` but the macro expanded')
+    if expect_err is not None:
+        return O
+    toks = I.P.flat(out_value.fields[0].toks)
+    try:
+        top = rsview.parse_items(toks)
+    except Exception as e:
+        O.add('C15', 'generated-items-parse', False, f'{type(e).__name__}: {e}')
+        return O
+    kinds = [t.kind for t in top]
+    want_kinds = ['trait'] + (['trait'] if has_it else []) + (['trait'] if (has_it and kind == 'trait') else []) + ['impl']
+    O.add('C09', 'expansion-is-the-trait[, delegation traits] and the Impl<T> impl', kinds == want_kinds, f'{kinds} expected {want_kinds}')
+    if kinds != want_kinds:
+        return O
+    tr = top[0]
+    impl_item = top[-1]
+    tname = I.f(item0, 'ident').name
+    contains_async = any(I.f(I.f(m, 'sig'), 'asyncness').variant == 'Some' for m in methods)
+    has_at = any(attr_kind(I, a) == 'async_trait' for a in trait_attrs)
+    # ---- C09: the user's trait --------------------------------------------------------------------------------------------------
+    O.add('C09', 'trait-name-kept', name_eq(tr.name[1], tname))
+    O.add('C09', 'trait-visibility-kept', toks_eq(tr.vis, I.toks(item0.f('vis'))), f'`{show(tr.vis)}`')
+    O.add('C09', 'unsafe-kept', tr.unsafety == (I.f(item0, 'unsafety').variant == 'Some'), f'unsafe={tr.unsafety}', cls='unsafe-trait')
+    gp_in = [I.toks(g) for g in I.items(gen, 'params')]
+    O.add('C09', 'trait-generics-kept', len(tr.generics) == len(gp_in) and zand(*[toks_eq(a, b) for a, b in zip(tr.generics, gp_in)]),
+          f'{[show(g) for g in tr.generics]} vs {[show(g) for g in gp_in]}')
+    sup_in = [I.toks(b) for b in I.items(item0, 'supertraits')]
+    O.add('C09', 'supertraits-kept', len(tr.supertraits) == len(sup_in) and zand(*[toks_eq(a, b) for a, b in zip(tr.supertraits, sup_in)]),
+          f'{[show(g) for g in tr.supertraits]} vs {[show(g) for g in sup_in]}')
+    w_in = []
+    if wc.variant == 'Some':
+        w_in = [I.toks(p) for p in I.items(ex.force_slot(wc.fields, 0), 'predicates')]
+    O.add('C09', 'where-clause-kept', len(tr.where) == len(w_in) and zand(*[toks_eq(strip_trailing_comma(a), b) for a, b in zip(tr.where, w_in)]),
+          f'{[show(g) for g in tr.where]} vs {[show(g) for g in w_in]}')
+    # attributes: every input attribute, additions limited to the mock derivations the macro owns
+    left = [a for a in tr.attrs if not is_known_trait_attr(a)]
+    for a in trait_attrs:
+        want = I.toks(a)[1][2]
+        hit = next((x for x in left if toks_eq(x, want) is True), None)
+        cls = 'trait-attribute-dropped:' + ('async_trait/automock' if attr_kind(I, a) != 'other' else 'other')
+        if hit is not None:
+            left.remove(hit)
+        O.add('C09', 'trait-attribute-kept', hit is not None, f'`#[{show(want, 60)}]` is missing on the resulting trait', cls=cls)
+    O.add('C09', 'no-foreign-attribute-added-to-the-trait', not left, f'{[show(a, 60) for a in left]}')
+    # items in order
+    out_fns = [it for it in tr.items if it.kind == 'fn']
+    n_types_in = sum(1 for it in items_in if it.variant == 'Type')
+    n_types_out = sum(1 for it in tr.items if it.kind == 'type')
+    O.add('C09', 'associated-types-kept', n_types_in == n_types_out, f'{n_types_in} associated type(s) in the input, {n_types_out} in the result', cls='associated-type-dropped')
+    O.add('C09', 'every-method-kept-in-order', len(out_fns) == len(methods), f'{len(out_fns)} vs {len(methods)}')
+    im = [it for it in impl_item.items if it.kind == 'fn']
+    O.add('C06', 'one-delegating-method-per-trait-method', len(im) == len(methods) and len(impl_item.items) == len(im), f'{len(im)} vs {len(methods)}')
+    if len(out_fns) != len(methods) or len(im) != len(methods):
+        return O
+    for k, m in enumerate(methods):
+        sig = I.f(m, 'sig')
+        mt = out_fns[k]
+        mi = im[k]
+        tag = f'm{k}'
+        is_async = I.f(sig, 'asyncness').variant == 'Some'
+        sig_in = I.toks(sig)
+        rewritten = is_async and not has_at
+        if not rewritten:
+            O.add('C09', f'{tag}:signature-kept', toks_eq(sig_tokens(mt), sig_in), f'`{show(sig_tokens(mt), 200)}` vs `{show(sig_in, 200)}`')
+        else:
+            out_node = I.f(sig, 'output')
+            ret_in = I.toks(out_node.fields[1]) if out_node.variant == 'Type' else None
+            want = [('I', 'impl'), ('P', '::'), ('I', 'core'), ('P', '::'), ('I', 'future'), ('P', '::'), ('I', 'Future'), ('P', '<'),
+                    ('I', 'Output'), ('P', '=')] + (ret_in if ret_in is not None else [('G', '(', [])]) + [('P', '>')]
+            send = [('P', '+'), ('P', '::'), ('I', 'core'), ('P', '::'), ('I', 'marker'), ('P', '::'), ('I', 'Send')]
+            got = mt.ret or []
+            has_send = len(got) >= len(send) and toks_eq(got[-len(send):], send) is True
+            base = got[:-len(send)] if has_send else got
+            O.add('C12', f'{tag}:future-output-is-the-declared-return-type', toks_eq(base, want), f'`{show(got, 200)}`')
+            O.add('C12', f'{tag}:send-bound-iff-not-?Send', has_send == eff['future_send'], f'Send={has_send}')
+            O.add('C12', f'{tag}:trait-method-not-async', 'async' not in mt.quals)
+            O.add('C14', f'{tag}:no-boxing', not contains_ident(got, ('Box', 'dyn', 'Pin')))
+            # everything else of the signature is kept
+            in_item = rsview.parse_items(sig_in + [('P', ';')])[0]
+            same = zand(len(mt.params) == len(in_item.params), *[zand(toks_eq(a.pat, b.pat), toks_eq(a.ty, b.ty), a.receiver == b.receiver)
+                                                                   for a, b in zip(mt.params, in_item.params)],
+                        len(mt.generics) == len(in_item.generics), *[toks_eq(a, b) for a, b in zip(mt.generics, in_item.generics)],
+                        len(mt.where) == len(in_item.where), *[toks_eq(a, b) for a, b in zip(mt.where, in_item.where)],
+                        name_eq(mt.name[1], in_item.name[1]))
+            O.add('C09', f'{tag}:signature-kept-up-to-the-async-rewrite', same, f'`{show(sig_tokens(mt), 200)}` vs `{show(sig_in, 200)}`')
+        # method attributes on the trait method and mirrored on the delegating method (C09 / C18)
+        ain = [I.toks(a)[1][2] for a in I.items(m, 'attrs')]
+        O.add('C09', f'{tag}:method-attributes-kept', len(mt.attrs) == len(ain) and zand(*[toks_eq(a, b) for a, b in zip(mt.attrs, ain)]),
+              f'{[show(a, 50) for a in mt.attrs]} vs {[show(a, 50) for a in ain]}')
+        O.add('C18', f'{tag}:method-attributes-mirrored-on-the-delegating-method', len(mi.attrs) == len(ain) and zand(*[toks_eq(a, b) for a, b in zip(mi.attrs, ain)]),
+              f'{[show(a, 50) for a in mi.attrs]} vs {[show(a, 50) for a in ain]}')
+        dflt = I.f(m, 'default')
+        O.add('C09', f'{tag}:default-body-kept', (dflt.variant == 'Some') == (mt.body is not None), f'provided={dflt.variant == "Some"} emitted-body={mt.body is not None}',
+              cls='default-body-dropped')
+        # ---- C06 / C07: the delegating method -----------------------------------------------------------------------
+        O.add('C06', f'{tag}:delegating-signature-is-the-trait-method-signature', toks_eq(sig_tokens(mi), sig_in), f'`{show(sig_tokens(mi), 200)}`')
+        params = [p for p in mi.params if p.receiver is None]
+        names = [p.name() for p in params]
+        if any(n is None for n in names):
+            O.add('C15', f'{tag}:non-identifier-pattern-handled', False, 'non-identifier parameter pattern reached code generation')
+            continue
+        args = []
+        for q, n in enumerate(names):
+            if q:
+                args.append(('P', ','))
+            args.append(('I', n))
+        T = [('I', 'EntraitT')]
+        if has_it and kind == 'trait':
+            call = [('P', '<'), ('I', 'EntraitT'), ('P', '::'), ('I', 'Target'), ('I', 'as'), ('I', impl_trait.fields[0].fields[1].name), ('P', '<'),
+                    ('I', 'EntraitT'), ('P', '>'), ('P', '>'), ('P', '::'), ('I', I.f(sig, 'ident').name),
+                    ('G', '(', [('I', 'self')] + ([('P', ',')] + args if args else []))]
+        elif has_it and kind in ('ref', 'borrow'):
+            conv = ['convert', 'AsRef', 'as_ref'] if kind == 'ref' else ['borrow', 'Borrow', 'borrow']
+            dyn = [('I', 'dyn'), ('I', impl_trait.fields[0].fields[1].name), ('P', '<'), ('I', 'EntraitT'), ('P', '>')] + \
+                  ([('P', '+'), ('I', 'Sync')] if contains_async else [])
+            call = [('P', '<'), ('I', 'EntraitT'), ('I', 'as'), ('P', '::'), ('I', 'core'), ('P', '::'), ('I', conv[0]), ('P', '::'), ('I', conv[1]), ('P', '<')] + dyn + \
+                   [('P', '>'), ('P', '>'), ('P', '::'), ('I', conv[2]), ('G', '(', [('P', '&'), ('P', '*'), ('I', 'self')]), ('P', '.'), ('I', I.f(sig, 'ident').name),
+                    ('G', '(', [('I', 'self')] + ([('P', ',')] + args if args else []))]
+        elif kind == 'ref':
+            call = [('I', 'self'), ('P', '.'), ('I', 'as_ref'), ('G', '(', []), ('P', '.'), ('I', 'as_ref'), ('G', '(', []), ('P', '.'), ('I', I.f(sig, 'ident').name), ('G', '(', args)]
+        elif kind == 'borrow':
+            call = [('I', 'self'), ('P', '.'), ('I', 'as_ref'), ('G', '(', []), ('P', '.'), ('I', 'borrow'), ('G', '(', []), ('P', '.'), ('I', I.f(sig, 'ident').name), ('G', '(', args)]
+        else:
+            call = [('I', 'self'), ('P', '.'), ('I', 'as_ref'), ('G', '(', []), ('P', '.'), ('I', I.f(sig, 'ident').name), ('G', '(', args)]
+        if is_async:
+            call += [('P', '.'), ('I', 'await')]
+        body = strip_trailing_commas(normalize_sync_path(list(mi.body or [])))
+        prop = 'C07' if has_it else 'C06'
+        O.add(prop, f'{tag}:forwarding-call-shape', toks_eq(body, strip_trailing_commas(call)), f'`{show(body, 260)}` expected `{show(call, 260)}`')
+        O.add('C12', f'{tag}:await-iff-async', has_await(body) == is_async)
+    # ---- the Impl<T> impl header ------------------------------------------------------------------------------------------------
+    g0 = impl_item.generics[0] if impl_item.generics else []
+    O.add('C06', 'impl-type-parameter-bounds-are-Sync+static', parse_t_bounds(g0) == ('EntraitT', ['Sync', "'static"]), f'`{show(g0)}`')
+    O.add('C06', 'impl-generics-repeat-the-trait-generics', len(impl_item.generics) == 1 + len(gp_in) and
+          zand(*[toks_eq(a, b) for a, b in zip(impl_item.generics[1:], gp_in)]), f'{[show(g) for g in impl_item.generics]}')
+    O.add('C06', 'implemented-for-Impl<EntraitT>', toks_eq(impl_item.self_ty, IMPL_PATH), f'`{show(impl_item.self_ty)}`')
+    targs = generic_args_of(I, gen)
+    O.add('C06', 'implements-the-trait-with-its-generic-arguments', impl_item.trait_ref is not None and toks_eq(impl_item.trait_ref, [('I', tname)] + angle(targs)),
+          f'`{show(impl_item.trait_ref or [])}`')
+    preds = list(impl_item.where)
+    first = normalize_sync_path(preds[0]) if preds else []
+    S = lambda n: [('P', '+'), ('I', n)]
+    ST = [('P', '+'), ('LT', 'static')]
+    if has_it and kind == 'trait':
+        want = T_colon() + [('I', delegate_ident), ('P', '<'), ('I', 'EntraitT'), ('P', '>')] + S('Sync') + ST
+    elif has_it:
+        core = ['convert', 'AsRef'] if kind == 'ref' else ['borrow', 'Borrow']
+        want = T_colon() + [('P', '::'), ('I', 'core'), ('P', '::'), ('I', core[0]), ('P', '::'), ('I', core[1]), ('P', '<'), ('I', 'dyn'),
+                            ('I', impl_trait.fields[0].fields[1].name), ('P', '<'), ('I', 'EntraitT'), ('P', '>')] + (S('Sync') if contains_async else []) + [('P', '>')] + \
+            ((S('Send') + S('Sync')) if contains_async else []) + ST
+    elif kind in ('ref', 'borrow'):
+        core = ['convert', 'AsRef'] if kind == 'ref' else ['borrow', 'Borrow']
+        want = T_colon() + [('P', '::'), ('I', 'core'), ('P', '::'), ('I', core[0]), ('P', '::'), ('I', core[1]), ('P', '<'), ('I', 'dyn'), ('I', tname)] + angle(targs) + \
+            [('P', '>')] + ((S('Send') + S('Sync')) if contains_async else []) + ST
+    else:
+        want = T_colon() + [('I', tname)] + angle(targs) + S('Sync') + (ST if contains_async else [])
+    prop = 'C07' if has_it else 'C06'
+    O.add(prop, 'provider-bound-on-T-per-selector', toks_eq(first, want), f'`{show(first, 260)}` expected `{show(want, 260)}`')
+    rest = preds[1:]
+    O.add('C06', 'remaining-predicates-are-the-trait-where-clause', len(rest) == len(w_in) and zand(*[toks_eq(a, b) for a, b in zip(rest, w_in)]),
+          f'{[show(p, 80) for p in rest]} vs {[show(p, 80) for p in w_in]}')
+    at_attrs = [I.toks(a)[1][2] for a in trait_attrs if attr_kind(I, a) == 'async_trait']
+    O.add('C12', 'async_trait-re-applied-to-the-Impl<T>-impl', len(impl_item.attrs) == len(at_attrs) and zand(*[toks_eq(a, b) for a, b in zip(impl_item.attrs, at_attrs)]),
+          f'{[show(a, 60) for a in impl_item.attrs]}')
+    # ---- C10: mock derivations on the user's trait ---------------------------------------------------------------------------------
+    ma = mock_attrs(tr)
+    up, ug, uparams = ma['unimock']
+    mp, mg, _ = ma['mockall']
+    O.add('C10', 'unimock-derivation-iff-enabled', ziff(up, eff['unimock_derive']), f'emitted={up}')
+    O.add('C10', 'mockall-derivation-iff-enabled', ziff(mp, eff['mockall']), f'emitted={mp}')
+    if up:
+        O.add('C10', 'unimock-test-gated-unless-exported', ziff(ug, znot(eff['export'])), f'gated={ug}')
+        c11_unimock_params(I, eff, [], [], [], uparams, 'trait', O)
+    if mp:
+        O.add('C10', 'mockall-test-gated-unless-exported', ziff(mg, znot(eff['export'])), f'gated={mg}')
+    # ---- C07 / C13: the delegation-target trait ----------------------------------------------------------------------------------------
+    if has_it:
+        dt = top[1]
+        it_name = impl_trait.fields[0].fields[1].name
+        O.add('C07', 'delegation-target-trait-named-as-requested', name_eq(dt.name[1], it_name))
+        O.add('C13', 'delegation-target-trait-takes-the-visibility-of-the-trait', toks_eq(dt.vis, I.toks(item0.f('vis'))), f'`{show(dt.vis)}` vs `{show(I.toks(item0.f("vis")))}`')
+        O.add('C07', 'delegation-target-trait-generics-are-EntraitT-then-the-trait-generics', len(dt.generics) == 1 + len(gp_in) and
+              toks_eq(dt.generics[0], [('I', 'EntraitT')]) is True and zand(*[toks_eq(a, b) for a, b in zip(dt.generics[1:], gp_in)]), f'{[show(g) for g in dt.generics]}')
+        O.add('C07', 'delegation-target-trait-is-static', len(dt.supertraits) == 1 and toks_eq(dt.supertraits[0], [('LT', 'static')]) is True, f'{[show(g) for g in dt.supertraits]}')
+        O.add('C10', 'no-mock-derivation-on-the-delegation-target-trait', not mock_attrs(dt)['unimock'][0] and not mock_attrs(dt)['mockall'][0])
+        dfns = [x for x in dt.items if x.kind == 'fn']
+        O.add('C07', 'delegation-target-trait-has-every-method', len(dfns) == len(methods))
+        impl_ty = [('P', '&')] + list(IMPL_PATH)
+        if len(dfns) == len(methods):
+            for k, m in enumerate(methods):
+                df = dfns[k]
+                sig = I.f(m, 'sig')
+                in_item = rsview.parse_items(I.toks(sig) + [('P', ';')])[0]
+                user = [p for p in in_item.params if p.receiver is None]
+                inrecv = [p for p in in_item.params if p.receiver is not None]
+                dparams = [p for p in df.params if p.receiver is None]
+                drecv = [p for p in df.params if p.receiver is not None]
+                if not inrecv:
+                    continue
+                if kind == 'trait':
+                    ok = len(drecv) == 0 and len(dparams) == len(user) + 1 and dparams[0].name() == '__impl'
+                    if ok and inrecv[0].receiver['ref']:
+                        want_ty = [('P', '&')] + ([inrecv[0].receiver['lifetime']] if inrecv[0].receiver['lifetime'] else []) + list(IMPL_PATH)
+                        ok = toks_eq(dparams[0].ty, want_ty) is True
+                    O.add('C07', f'm{k}:static-target-method-takes-(__impl: &Impl<T>, args)', ok, f'`{show(sig_tokens(df), 200)}`')
+                else:
+                    ok = len(drecv) == 1 and df.params[0].receiver is not None and len(dparams) == len(user) + 1 and dparams[0].name() == '__impl' and \
+                        toks_eq(dparams[0].ty, impl_ty) is True
+                    O.add('C07', f'm{k}:dynamic-target-method-takes-(&self, __impl: &Impl<T>, args)', ok, f'`{show(sig_tokens(df), 200)}`')
+                rest_p = dparams[1:] if len(dparams) == len(user) + 1 else []
+                O.add('C07', f'm{k}:target-method-keeps-the-arguments', len(rest_p) == len(user) and
+                      zand(*[zand(toks_eq(a.pat, b.pat), toks_eq(a.ty, b.ty)) for a, b in zip(rest_p, user)]), f'`{show(sig_tokens(df), 200)}`')
+        O.add('C12', 'async_trait-re-applied-to-the-delegation-target-trait', all(any(toks_eq(x, a) is True for x in dt.attrs) for a in at_attrs),
+              f'{[show(a, 60) for a in dt.attrs]}')
+        if kind == 'trait':
+            sel = top[2]
+            O.add('C07', 'selector-trait', name_eq(sel.name[1], delegate_ident) and len(sel.generics) == 1 and
+                  toks_eq(sel.body, [('I', 'type'), ('I', 'Target'), ('P', ':'), ('I', it_name), ('P', '<'), ('I', 'T'), ('P', '>'), ('P', ';')]) is True,
+                  f'`{show(sel.tokens, 200)}`')
+    gen_part = []
+    for t in top[1:]:
+        gen_part += t.tokens
+    bad = c19_unrooted_idents(gen_part, extra_ok=())
+    O.add('C19', 'macro-originated-identifiers-are-rooted-or-reserved', not bad, f'bare identifiers {sorted(set(bad))}')
+    static = kind in ('none', 'self', 'trait')
+    O.add('C14', 'no-trait-object-or-box-in-static-delegation', (not static) or not contains_macro_ident(gen_part, ('dyn', 'Box')))
+    return O
+
+
+def T_colon():
+    return [('I', 'EntraitT'), ('P', ':')]
+
+
+def normalize_sync_path(toks):
+    """`::core::marker::Sync` == `Sync` (and Send): spelling of the marker traits is not part of C06/C07"""
+    out = []
+    i = 0
+    pre = [('P', '::'), ('I', 'core'), ('P', '::'), ('I', 'marker'), ('P', '::')]
+    while i < len(toks):
+        if i + 5 < len(toks) and [(t[0], t[1]) for t in toks[i:i + 5]] == pre and toks[i + 5][0] == 'I' and toks[i + 5][1] in ('Sync', 'Send'):
+            out.append(toks[i + 5])
+            i += 6
+            continue
+        t = toks[i]
+        if t[0] == 'G':
+            out.append((t[0], t[1], normalize_sync_path(t[2])) + tuple(t[3:]))
+        else:
+            out.append(t)
+        i += 1
+    return out
